@@ -172,6 +172,15 @@ class Folder(object):
             if fn in ("copy.deepcopy", "copy.copy", "dict", "list", "tuple", "set") and len(node.args) == 1:
                 v = f(node.args[0])
                 return {"dict": dict, "list": list, "tuple": tuple, "set": set}.get(fn, lambda x: x)(v)
+            if fn == "dict.fromkeys" and len(node.args) in (1, 2) and not node.keywords:
+                keys = f(node.args[0])
+                val = f(node.args[1]) if len(node.args) == 2 else None
+                try:
+                    return dict.fromkeys(keys, val)
+                except Exception as exc:
+                    raise Unfoldable(str(exc))
+            if fn == "dict" and not node.args and node.keywords and all(k.arg for k in node.keywords):
+                return dict((k.arg, f(k.value)) for k in node.keywords)
             if fn == "urljoin" and len(node.args) == 2:
                 return str(f(node.args[0])) + str(f(node.args[1]))
             if fn in ("datetime.timedelta", "timedelta"):
